@@ -19,6 +19,7 @@ from odata_query import ast, exceptions
 from odata_query.grammar import ODATA_FUNCTIONS, ODataLexer, ODataParser
 
 from ..common import Run
+from ..gen import pick as gen_pick
 from ..harness import Item, run_items
 
 PID = "C11"
@@ -89,7 +90,7 @@ def expected(full: str, ns: tuple, n: int) -> Tuple[str, Any]:
 
 
 def check_direct(pi: int, nsk: int, n: int, named: bool, kind: int) -> bool:
-    name = POOL[pi]
+    name = gen_pick(POOL, pi)
     ns = NS_KINDS[nsk]
     ident = ast.Identifier(name, ns)
     full = ".".join(ns + (name,))
@@ -130,7 +131,7 @@ def check_history(pi: int, hk: int, n1: int, n2: int, same_parser: bool) -> bool
     """acceptance does not depend on what was checked before: a first call with the same bare name in another (or
     the same) namespace / another argument count - accepted or rejected - never changes the verdict of a second call,
     neither on the same parser instance nor on a new one (no state on the instance, the class or the module)."""
-    name = POOL[pi]
+    name = gen_pick(POOL, pi)
     ns1, ns2 = HIST_NS[hk]
     p1 = ODataParser()
     try:
@@ -151,7 +152,7 @@ def _parse(text: str) -> Any:
 
 def check_text(pi: int, nsk: int, n: int, kind: int, ws: bool) -> bool:
     """through the real lexer + parser: name(arg, ...) with n positional arguments."""
-    name = POOL[pi]
+    name = gen_pick(POOL, pi)
     ns = NS_KINDS[nsk]
     full = ".".join(ns + (name,))
     parts = [ARG_TEXT[(kind + j) % ARG_KINDS].format(j=j) for j in range(n)]
